@@ -563,3 +563,64 @@ func TestKnownC11(t *testing.T) {
 	}}
 	vcore.Known(t, "C11", "shadow-empty-value", c, checkC11)
 }
+
+// ---- enumeration: one capture pass that finds both a changed key and a deleted key of the same DBI ----
+
+type enumC11CD struct {
+	Drive   string `json:"drive"`
+	Kind    string `json:"kind"`
+	Changed int    `json:"changed"`
+	Deleted int    `json:"deleted"`
+	Second  int    `json:"second"` // a second deleted key (-1: none)
+	Long    bool   `json:"long"`   // the new value is 2000 bytes long (the page is reorganised)
+}
+
+func TestC11ChangeAndDelete(t *testing.T) {
+	vcore.RunEnum(t, vcore.Config{Property: "C11", Inflight: true,
+		Rule: "enumeration: a DBI (plain / integer keys) with 8 captured keys; ONE application transaction overwrites key i and deletes key j (optionally a second key), for every i != j x {short, 2000-byte new value} x {drive a, drive b}; capture; then the application re-inserts j, capture: after every step application DBI and shadow DBI equal the mirror model byte for byte (marker under the right key, neighbours intact); non-trivial = the deleted key sorts after the changed one"},
+		func(yield func(enumC11CD) bool) {
+			for _, drive := range []string{"a", "b"} {
+				for _, kind := range []string{"plain", "int4"} {
+					for i := 0; i < 8; i++ {
+						for j := 0; j < 8; j++ {
+							if i == j {
+								continue
+							}
+							for _, long := range []bool{false, true} {
+								second := -1
+								if (i+j)%3 == 0 {
+									second = (j + 3) % 8
+									if second == i {
+										second = -1
+									}
+								}
+								if !yield(enumC11CD{Drive: drive, Kind: kind, Changed: i, Deleted: j, Second: second, Long: long}) {
+									return
+								}
+							}
+						}
+					}
+				}
+			}
+		},
+		func(e enumC11CD, o *vcore.Obs) error {
+			c := C11Case{Drive: e.Drive, Kinds: []string{e.Kind}, CaptureOnly: true, AllowEmpty: true}
+			var all []AppChange
+			for k := 0; k < 8; k++ {
+				all = append(all, AppChange{DBI: 0, Key: k, Op: "put", Val: model.Bytes(fmt.Sprintf("value-%d", k))})
+			}
+			nv := model.Bytes("v2")
+			if e.Long {
+				nv = bytes.Repeat([]byte{'N'}, 2000)
+			}
+			step := []AppChange{{DBI: 0, Key: e.Changed, Op: "put", Val: nv}, {DBI: 0, Key: e.Deleted, Op: "del"}}
+			if e.Second >= 0 {
+				step = append(step, AppChange{DBI: 0, Key: e.Second, Op: "del"})
+			}
+			c.Ops = []C11Op{{Kind: "app", Changes: all}, {Kind: "capture"}, {Kind: "app", Changes: step}, {Kind: "capture"},
+				{Kind: "app", Changes: []AppChange{{DBI: 0, Key: e.Deleted, Op: "put", Val: model.Bytes("again")}}}, {Kind: "capture"}}
+			err := checkC11(c, o)
+			o.NonTrivial(bytes.Compare(c11Key(e.Kind, e.Deleted), c11Key(e.Kind, e.Changed)) > 0)
+			return err
+		})
+}
